@@ -167,7 +167,7 @@ func (r *runner) guard(in any, f func()) {
 	f()
 }
 
-var reTrack = regexp.MustCompile(`^(.*[^/]/|.+/)trackID=[0-9]+$`)
+var reTrack = regexp.MustCompile(`^(.+/)trackID=[0-9]+$`)
 
 // schemeOf classifies an Authorization header value produced by the sender.
 func schemeOf(hv base.HeaderValue) string {
@@ -373,6 +373,8 @@ func (r *runner) direct1(d *Direct, in *Input, name string) {
 			if !accepted {
 				r.viol("SETUP base-URL compatibility rule", "auth-setup-rule", in, fmt.Sprintf("Verify: %v", verr))
 			}
+		} else if curl.CloneWithoutCredentials().String() == vu.String() {
+			c.Dist("direct:setup-rule-n/a")
 		} else {
 			c.Dist("direct:setup-rule-reject-checked")
 			if accepted {
@@ -597,7 +599,13 @@ func Run(c *corr.Ctx) {
 		return
 	}
 
-	// corpus first
+	// published test vectors of the two digests (RFC 1321 A.5, FIPS 180-4) -- short cases first
+	for i, v := range []string{"", "a", "abc", "message digest", "abcdefghijklmnopqrstuvwxyz",
+		"abcdbcdecdefdefgefghfghighijhijkijkljklmklmnlmnomnopnopq",
+		"12345678901234567890123456789012345678901234567890123456789012345678901234567890"} {
+		r.hashCase([]byte(v), fmt.Sprintf("hash-vector-%d", i))
+	}
+	// corpus
 	if files, err := filepath.Glob(filepath.Join(corpusDir(), "*.json")); err == nil {
 		sort.Strings(files)
 		for _, f := range files {
@@ -617,21 +625,21 @@ func Run(c *corr.Ctx) {
 
 	r.sweeps()
 	g := &gen{r: c.Rng}
-	n := c.N(4000, 150000)
+	n := c.N(12000, 200000)
 	for i := 0; i < n; i++ {
 		d := g.direct()
 		r.direct(d, fmt.Sprintf("direct-%d", i))
 	}
-	r.perturbAll(g, c.N(150, 4000))
-	n = c.N(3000, 100000)
+	r.perturbAll(g, c.N(300, 5000))
+	n = c.N(10000, 200000)
 	for i := 0; i < n; i++ {
 		r.raw(g.raw(), fmt.Sprintf("raw-%d", i))
 	}
-	n = c.N(60, 1500)
+	n = c.N(250, 4000)
 	for i := 0; i < n; i++ {
 		r.serverCase(g.server(), fmt.Sprintf("server-%d", i))
 	}
-	n = c.N(25, 400)
+	n = c.N(60, 800)
 	for i := 0; i < n; i++ {
 		r.clientCase(g.client(), fmt.Sprintf("client-%d", i))
 	}
